@@ -305,6 +305,7 @@ func parent(name string, args []string, in, outp string, jobs int) int {
 				a := append([]string{name}, args...)
 				a = append(a, "-shard", fmt.Sprintf("%d/%d", i, jobs), "-out", o, "-progress", p, "-from", strconv.Itoa(from))
 				cmd := exec.Command(self, a...)
+				cmd.Env = append(os.Environ(), "GORACE=halt_on_error=1")
 				var stderr bytes.Buffer
 				cmd.Stderr = &stderr
 				cmd.Stdout = io.Discard
@@ -339,6 +340,15 @@ func parent(name string, args []string, in, outp string, jobs int) int {
 						cls = MsgClass(e)
 					}
 					site := PanicSite([]byte(se))
+					if k := strings.Index(se, "WARNING: DATA RACE"); k >= 0 {
+						// a race-detector build with GORACE=halt_on_error=1: the first report kills the worker
+						kind, cls, site = "race", "data race", raceSite(se[k:])
+						if site == "unknown" {
+							// no function of the code under test in the report: a race of the harness itself
+							fail[i] = "data race inside the harness:\n" + tailStr(se[k:], 1500)
+							return
+						}
+					}
 					line := scenarioLine(in, last)
 					b, _ := json.Marshal(map[string]interface{}{"kind": "disagree", "key": kind + ":" + site + ":" + cls,
 						"what": cls + " in " + site, "detail": json.RawMessage(line)})
@@ -418,4 +428,35 @@ func SortedKeys(m map[string]int) []string {
 	}
 	sort.Strings(ks)
 	return ks
+}
+
+// raceSite names a race report by the two innermost functions of the code under test that access the location.
+func raceSite(rep string) string {
+	var fns []string
+	lines := strings.Split(rep, "\n")
+	for i, l := range lines {
+		if (strings.HasPrefix(l, "Write at") || strings.HasPrefix(l, "Read at") || strings.HasPrefix(l, "Previous write at") || strings.HasPrefix(l, "Previous read at")) && i+1 < len(lines) {
+			for _, f := range lines[i+1:] {
+				f = strings.TrimSpace(f)
+				if f == "" {
+					break
+				}
+				if strings.Contains(f, "github.com/benoitkugler/webrender/") && strings.HasSuffix(f, ")") {
+					f = strings.TrimPrefix(f, "github.com/benoitkugler/webrender/")
+					if k := strings.Index(f, "("); k > 0 && !strings.HasPrefix(f, "(") {
+						f = f[:k]
+					}
+					fns = append(fns, f)
+					break
+				}
+			}
+		}
+		if len(fns) == 2 {
+			break
+		}
+	}
+	if len(fns) == 0 {
+		return "unknown"
+	}
+	return strings.Join(fns, "+")
 }
